@@ -6,6 +6,7 @@ package main
 import (
 	"context"
 	"errors"
+	"fmt"
 	"strings"
 	"unsafe"
 
@@ -24,6 +25,17 @@ import (
 )
 
 func ptrOf(b []byte) unsafe.Pointer { return unsafe.Pointer(&b[0]) }
+
+// a slice a read API handed back must lie inside the buffer it was given: [start, start+len) within [0, len(buf)]
+func checkInside(buf []byte, raw []byte) {
+	if len(raw) == 0 || len(buf) == 0 {
+		return
+	}
+	start := int64(uintptr(unsafe.Pointer(&raw[0]))) - int64(uintptr(unsafe.Pointer(&buf[0])))
+	if start < 0 || start+int64(len(raw)) > int64(len(buf)) {
+		panic(fmt.Sprintf("sub node outside the caller's buffer: span [%d,%d) of a %d-byte buffer", start, start+int64(len(raw)), len(buf)))
+	}
+}
 
 // read through everything a call returned: a string / []byte header that points outside the input buffer
 // (length prefix trusted without a bounds test) faults on the guard page here
@@ -89,6 +101,8 @@ func touch(v interface{}, depth int) {
 type c06ctx struct {
 	tmsgs  []*tmsg
 	pmsgs  []*pmsg
+	cdescs []*thrift.TypeDescriptor // container descriptors: list/set of every fixed-width type, two maps, a struct
+	cvals  []c06input               // their well-formed encodings (msg = index into cdescs)
 	bmsgs  []*tmsg  // messages with a base.BaseResp field, descriptors parsed with EnableThriftBase
 	t2jb   t2j.BinaryConv
 	tjson  [][]byte // JSON of thrift message i (t2j of the valid message)
@@ -289,20 +303,71 @@ var c06eps = []c06ep{
 	{"generic.Node.Field/Index/Get", func(c *c06ctx, j c06job, in []byte) error {
 		n := newTNode(jobType(j), in)
 		var last error
+		// a sub node handed back by a single-step accessor must lie inside the caller's buffer, and reading it
+		// (Raw / Int / Interface ...) must stay inside too: the input sits flush against the guard page
+		use := func(v generic.Node) {
+			last = nodeErr(v)
+			if last != nil {
+				return
+			}
+			checkInside(in, v.Raw())
+			x, _ := v.Interface(c.topts[0])
+			touch(x, 0)
+			switch v.Type() {
+			case thrift.I08, thrift.I16, thrift.I32, thrift.I64:
+				v.Int()
+			case thrift.DOUBLE:
+				v.Float64()
+			case thrift.BOOL:
+				v.Bool()
+			}
+		}
 		switch jobType(j) {
 		case thrift.STRUCT:
 			for _, id := range []thrift.FieldID{1, 2, 3, 64, 255, 32767} {
-				last = nodeErr(n.Field(id))
+				use(n.Field(id))
 			}
 		case thrift.LIST, thrift.SET:
-			for _, i := range []int{0, 1, 2, 5, 1000} {
-				last = nodeErr(n.Index(i))
+			for _, i := range []int{0, 1, 2, 3, 4, 5, 7, 16, 1000} {
+				use(n.Index(i))
 			}
 		case thrift.MAP:
-			last = nodeErr(n.GetByStr("key"))
-			last = nodeErr(n.GetByInt(1))
+			use(n.GetByStr("key"))
+			use(n.GetByStr("k1"))
+			use(n.GetByInt(1))
+			use(n.GetByInt(-3))
+			use(n.GetByRaw([]byte{0, 0, 0, 1}))
 		}
 		n.Len()
+		return last
+	}},
+	{"generic.Value.Index/Field/Get", func(c *c06ctx, j c06job, in []byte) error {
+		// the typed single-step accessors on a container value described by a descriptor (param: index into c.cdescs)
+		cd := c.cdescs[j.param%len(c.cdescs)]
+		v := generic.NewValue(cd, in)
+		var last error
+		use := func(x generic.Value) {
+			last = nodeErr(x.Node)
+			if last != nil {
+				return
+			}
+			checkInside(in, x.Raw())
+			y, _ := x.Interface(c.topts[0])
+			touch(y, 0)
+			x.Int()
+		}
+		switch cd.Type() {
+		case thrift.LIST, thrift.SET:
+			for _, i := range []int{0, 1, 2, 3, 4, 5, 7, 16, 1000} {
+				use(v.Index(i))
+			}
+		case thrift.MAP:
+			use(v.GetByStr("key"))
+			use(v.GetByInt(1))
+		case thrift.STRUCT:
+			use(v.Field(1))
+			use(v.Field(2))
+		}
 		return last
 	}},
 	{"generic.Value.GetByPath", func(c *c06ctx, j c06job, in []byte) error {
@@ -475,6 +540,7 @@ func buildC06Ctx(r *rng, nT, nP int) *c06ctx {
 	c.tmsgs = genThriftMsgs(r.fork(), nT)
 	c.pmsgs = genProtoMsgs(r.fork(), nP)
 	c.topts = []*generic.Options{{}, {UseNativeSkip: true}, {StoreChildrenById: true}, {StoreChildrenByHash: true, MapStructById: true}}
+	c.cdescs, c.cvals = c06Containers(r.fork())
 	c.t2j = t2j.NewBinaryConv(conv.Options{})
 	c.t2jb = t2j.NewBinaryConv(conv.Options{EnableThriftBase: true})
 	for br := r.fork(); len(c.bmsgs) < nT/6+2; {
@@ -571,6 +637,28 @@ func buildC06Jobs(r *rng, tier string) ([]c06job, *c06ctx) {
 	for mi, m := range c.bmsgs {
 		for _, in := range thriftVariants(rr, mi, m, maxTrunc, budget+2) {
 			add("t2j.base", in, 0, "")
+		}
+	}
+	// containers of fixed-width elements with the header intact and the elements cut: every truncation point, counts
+	// above the elements present
+	for _, cv := range c.cvals {
+		t := c.cdescs[cv.msg].Type()
+		var vars []c06input
+		for k := 0; k <= len(cv.b); k++ {
+			vars = append(vars, c06input{cv.b[:k], "trunc", cv.msg})
+		}
+		if t == thrift.LIST || t == thrift.SET {
+			for _, cnt := range []uint32{7, 64, 1 << 16, 0x7fffffff} {
+				cp := cloneBytes(cv.b)
+				binaryPut32(cp[1:], cnt)
+				vars = append(vars, c06input{cp, "count", cv.msg})
+			}
+		}
+		for _, in := range vars {
+			add("generic.Node.Field/Index/Get", in, int(t), "")
+			add("generic.Value.Index/Field/Get", in, cv.msg, "")
+			add("generic.Node.Interface", in, int(t), "")
+			add("thrift.SkipGo", in, int(t), "")
 		}
 	}
 	// nesting around the depth limit, every declared type on random bytes
@@ -712,4 +800,49 @@ func subValues(v *Val, n int) []*Val {
 	}
 	walk(v, true)
 	return out
+}
+
+func binaryPut32(b []byte, v uint32) { b[0], b[1], b[2], b[3] = byte(v>>24), byte(v>>16), byte(v>>8), byte(v) }
+
+// descriptors and encodings of small containers: list/set of every fixed-width type, map<string,i32>, map<i32,i64>, a struct
+func c06Containers(r *rng) ([]*thrift.TypeDescriptor, []c06input) {
+	var tys []*Ty
+	for _, k := range []thrift.Type{thrift.BOOL, thrift.I08, thrift.I16, thrift.I32, thrift.I64, thrift.DOUBLE} {
+		tys = append(tys, &Ty{K: thrift.LIST, Elem: &Ty{K: k}}, &Ty{K: thrift.SET, Elem: &Ty{K: k}})
+	}
+	tys = append(tys, &Ty{K: thrift.MAP, Key: &Ty{K: thrift.STRING}, Elem: &Ty{K: thrift.I32}},
+		&Ty{K: thrift.MAP, Key: &Ty{K: thrift.I32}, Elem: &Ty{K: thrift.I64}},
+		&Ty{K: thrift.LIST, Elem: &Ty{K: thrift.STRING}})
+	g := newTgen(r)
+	root := &Ty{K: thrift.STRUCT, Name: "W"}
+	for i, t := range tys {
+		root.Fields = append(root.Fields, &Fld{ID: int16(i + 1), Name: fmt.Sprintf("c%d", i), T: t})
+	}
+	g.structs = append(g.structs, root)
+	desc, err := parseThrift(g.idl(root), thrift.Options{})
+	if err != nil {
+		die("C06 containers: %v", err)
+	}
+	var ds []*thrift.TypeDescriptor
+	var vals []c06input
+	for i, t := range tys {
+		ds = append(ds, desc.Struct().FieldById(thrift.FieldID(i+1)).Type())
+		v := &Val{T: t}
+		n := 5 + r.intn(3)
+		for k := 0; k < n; k++ {
+			if t.K == thrift.MAP {
+				key := g.genValue(t.Key, 1)
+				if t.Key.K == thrift.STRING {
+					key.S = []byte(fmt.Sprintf("k%d", k))
+				} else {
+					key.I = int64(k)
+				}
+				v.Keys = append(v.Keys, key)
+			}
+			v.Elems = append(v.Elems, g.genValue(t.Elem, 1))
+		}
+		vals = append(vals, c06input{v.encode(nil), "valid", i})
+	}
+	ds = append(ds, desc)
+	return ds, vals
 }
